@@ -520,7 +520,14 @@ func (ev *Evaluator) instr(env map[ssa.Value]Val, in ssa.Value) (Val, error) {
 				}
 			}
 		}
-		return ev.binop(in.Op, x, y, in.Pos())
+		r, err := ev.binop(in.Op, x, y, in.Pos())
+		if err == nil {
+			switch in.Op {
+			case token.ADD, token.SUB, token.MUL, token.SHL, token.SHR, token.AND, token.OR, token.XOR, token.AND_NOT:
+				r = wrapConst(r, in.Type())
+			}
+		}
+		return r, err
 	case *ssa.Phi:
 		return nil, &Undecided{in.Pos(), "phi out of place"}
 	case *ssa.Extract:
